@@ -10,4 +10,4 @@ Extraction "model.ml" conv_anchor
   Oom.node_count Oom.get_or_insert_cap Oom.mk_node_cap Oom.mk_var_cap
   Oom.not_nc Oom.bin_nc Oom.ite_nc Oom.res_code Oom.res_snap Oom.res_ref
   Table.find_node OomOwn.ores_code OomOwnTie.own_inv_b OomOwnTie.own_not OomOwnTie.own_bin OomOwnTie.own_ite
-  OomOwnTie.own_snap OomOwnTie.own_tokens OomOwnTie.snap_tokens.
+  OomOwnTie.own_snap OomOwnTie.own_tokens OomOwnTie.snap_tokens OomOwnTie.own_put.
